@@ -148,7 +148,7 @@ def run_c12(tier, seed, wd, info, verdict):
                         k += 1
                         sid = "C12-%d" % k
                         sc = dict(id=sid, ids=ids, n=n, t=t, initiator=init, account="DW/g%d" % k, generate=True, probe=valid,
-                                  commit_order=list(od) if od else [])
+                                  commit_order=list(od) if od else [], warm=bool(valid and k % 2))    # every other one: not the wallet's first dynamic account
                         scs.append(sc)
                         meta[sid] = sc
     # tampered commit replies
@@ -459,7 +459,7 @@ def run_c14(tier, seed, wd, info, verdict):
     info["model_runs"].append(dict(module="tlaps/ClusterProof", theorem="Spec => []NotBothThreshold for all N, T with 2T > N", obligations_proved=nobl))
     nts = [(3, 2), (4, 3)] if tier == "quick" else [(n, t) for n in range(2, 6) for t in range(1, n + 1) if 2 * t > n]
     scs, meta = [], {}
-    variants = ["single", "batch1", "batch2"]
+    variants = ["single", "batch1", "batch2", "batch2d"]     # batch2d: the duty is followed, in the same batch, by an entry that the rules refuse
     for n, t in nts:
         c = dict(N=n, T=t, ThresholdMode="gtHalf", SplitHistory=False, OldResets=False, OutFile="routings.json")
         r = tlc("ClusterTable", make_cfg(c), wd, name="ClusterTable_%d_%d" % (n, t), workers=1)
@@ -516,7 +516,7 @@ def run_c14(tier, seed, wd, info, verdict):
                 flat = flat + [(inst, ch) for inst, ch in flat]     # repeats
             for qi, (inst, ch) in enumerate(flat):
                 base = dict(da if ch == "A" else (db if ch == "B" else dold))
-                base.update(inst=inst, duty=a if ch == "A" else (b if ch == "B" else "r%d:O" % ri), variant=variants[(ri + qi + inst) % 3] if base["kind"] == "att" else "single",
+                base.update(inst=inst, duty=a if ch == "A" else (b if ch == "B" else "r%d:O" % ri), variant=variants[(ri + qi + inst) % 4] if base["kind"] == "att" else "single",
                             by=("name", "key")[(ri + qi) % 2], filler=1000 * (ri + 1) + 10 * qi + inst)
                 duties.append(base)
         sid = "C14-%d-%d" % (n, t)
